@@ -335,7 +335,7 @@ int main(int argc, char** argv) {
     long fixed_scn = a.num("scn", 0);
     long force_threads = a.num("threads", 0), force_prefill = a.num("threshold", -1);
     int cpus = (int)a.num("cpus", 0);
-    std::vector<int> ids = { 140, 141, 142, 143, 144, 145, 124 };
+    std::vector<int> ids = { 140, 141, 142, 143, 144, 145, 146, 146, 124 };
     Rng top(mix(R.seed, 0xC10));
     tbb::global_control gc(tbb::global_control::max_allowed_parallelism, 16);
 
